@@ -122,7 +122,7 @@ TStep ==
                  m  == IF Len(e.mcs) = 0 THEN m0
                        ELSE Msg(e.code, "A", MergedValsOf(e), e.t, e.mlife, nrx + 1, e.t + e.sk) IN
              /\ slot' = StoreEffect(slot, ms)
-             /\ last' = StoreEffect(last, m)
+             /\ last' = LastEffect(last, m)
              /\ allm' = Append(allm, m)
              /\ UNCHANGED seenExp
         ELSE IF e.k = "read"
